@@ -14,6 +14,7 @@ pub mod c13;
 pub mod c14;
 pub mod c15;
 pub mod c16;
+pub mod c17;
 pub mod c19;
 
 use crate::run::RunCtx;
@@ -36,6 +37,7 @@ pub fn dispatch(prop: &str, rc: &mut RunCtx) -> bool {
         "C14" => c14::run(rc),
         "C15" => c15::run(rc),
         "C16" => c16::run(rc),
+        "C17" => c17::run(rc),
         "C19" => c19::run(rc),
         _ => return false,
     }
